@@ -1,5 +1,150 @@
-use crate::mc::Eng;
+//! C16 — scratch-slot clause: with the MaybeUninit scratch arrays poisoned (cfg rrtk_verif),
+//! no result may depend on an unwritten slot and no index may be out of range.
+//! (The lifetime clause is decided by compiler probes driven from driver/c16_lifetime.py.)
+use crate::c02::In;
+use crate::env::*;
+use crate::mc::*;
 use crate::Ctx;
+use rrtk::devices::*;
+use rrtk::*;
+use std::cell::RefCell;
+
+fn rekey(e: &mut Eng, prefix: &str) {
+    let old = std::mem::take(&mut e.viol);
+    for (k, mut v) in old {
+        let nk = format!("{}:{}", prefix, k);
+        v.key = nk.clone();
+        e.viol.insert(nk, v);
+    }
+}
+
+fn nary_patterns(e: &mut Eng) {
+    for n in 1..=8usize {
+        // all absent/present patterns
+        for mask in 0..(1u32 << n) {
+            let cats: Vec<In> = (0..n).map(|i| if mask >> i & 1 == 1 { In::P } else { In::N }).collect();
+            let times: Vec<i64> = (0..n).map(|i| 100 + 7 * ((i * 5) % n) as i64).collect();
+            e.executions += 1;
+            e.states += 1;
+            e.transitions += 3;
+            if mask != 0 && mask != (1 << n) - 1 {
+                e.nontrivial += 1;
+            }
+            crate::c02::nary_case(n, &cats, &times, e);
+            // one erroring input at every position
+            for ep in 0..n {
+                let mut c2 = cats.clone();
+                c2[ep] = In::E(1);
+                e.executions += 1;
+                e.transitions += 3;
+                crate::c02::nary_case(n, &c2, &times, e);
+            }
+        }
+        e.max_depth = n as u64;
+    }
+    e.sample(|| "arity 3 pattern present/absent/present: sum must be 2+5 with the newer time, never the poisoned middle slot".to_string());
+    rekey(e, "scratch-slot");
+}
+
+type Term<'a> = RefCell<Terminal<'a, E>>;
+
+fn axle_case<const N: usize>(e: &mut Eng) {
+    e.executions += 1;
+    e.states += 1;
+    e.nontrivial += 1;
+    let r = guard(|| -> Result<(), String> {
+        let mut ax = Axle::<N, E>::new();
+        let xs: Vec<Term> = (0..N).map(|_| Terminal::new()).collect();
+        for i in 0..N {
+            let t = ax.get_terminal(i);
+            // a freshly constructed terminal holds nothing and is not borrowed
+            let s = <Terminal<E> as Getter<State, E>>::get(&t.borrow());
+            let c = <Terminal<E> as Getter<Command, E>>::get(&t.borrow());
+            let d = <Terminal<E> as Getter<TerminalData, E>>::get(&t.borrow());
+            if s != Ok(None) || c != Ok(None) || d != Ok(None) {
+                return Err(format!("Axle<{}> terminal {} is not empty after construction: {:?} {:?} {:?}", N, i, s, c, d));
+            }
+            let st = Datum::new(Time(i as i64 - 3), State::new_raw(i as f32 + 1.0, 0.5, -2.0));
+            t.borrow_mut().set(st).map_err(|e| format!("{:?}", e))?;
+            if <Terminal<E> as Getter<State, E>>::get(&t.borrow()) != Ok(Some(st)) {
+                return Err(format!("Axle<{}> terminal {} does not read back what was written", N, i));
+            }
+            connect(t, &xs[i]);
+        }
+        ax.update().map_err(|e| format!("{:?}", e))?;
+        if N > 0 {
+            let mean: f32 = (0..N).map(|i| i as f32 + 1.0).sum::<f32>() / N as f32;
+            for i in 0..N {
+                let got = <Terminal<E> as Settable<Datum<State>, E>>::get_last_request(&ax.get_terminal(i).borrow());
+                match got {
+                    Some(d) if d.value.position == mean && d.time == Time(N as i64 - 4) => {}
+                    other => return Err(format!("Axle<{}> after update terminal {} holds {:?}, expected mean position {} at time {}", N, i, other, mean, N as i64 - 4)),
+                }
+            }
+        }
+        Ok(())
+    });
+    e.transitions += (3 * N + 1) as u64;
+    e.checks += 1;
+    match r {
+        Ok(Ok(())) => {}
+        Ok(Err(m)) => e.violation("scratch-slot:axle-new:bad-terminal", N, || m),
+        Err(m) => e.violation("scratch-slot:axle-new:panic", N, || format!("Axle<{}>: {}", N, m)),
+    }
+    // out-of-range indices must be refused by a panic, never hand out a reference
+    for idx in [N, N + 1, N + 7, usize::MAX / 2, usize::MAX] {
+        e.executions += 1;
+        e.checks += 1;
+        let r = guard(|| {
+            let ax = Axle::<N, E>::new();
+            let t = ax.get_terminal(idx);
+            t as *const _ as usize
+        });
+        if let Ok(addr) = r {
+            e.violation("out-of-bounds:axle-get-terminal", N, || format!("Axle<{}>::get_terminal({}) returned a reference (address {:#x}) instead of panicking", N, idx, addr));
+        }
+    }
+}
+
+fn axles(e: &mut Eng) {
+    axle_case::<0>(e);
+    axle_case::<1>(e);
+    axle_case::<2>(e);
+    axle_case::<3>(e);
+    axle_case::<4>(e);
+    axle_case::<5>(e);
+    axle_case::<6>(e);
+    axle_case::<7>(e);
+    axle_case::<8>(e);
+    e.sample(|| "Axle<5>::new(): every terminal empty, writable, connectable; get_terminal(5) must panic".to_string());
+}
+
 pub fn run(_ctx: &Ctx) -> Vec<Eng> {
-    vec![]
+    let hook = cfg!(rrtk_verif);
+    let mut e1 = Eng::new(
+        "c16-nary-scratch",
+        "n-ary sum and product (f32 and, up to arity 3, Quantity) and newest-of for arities 1..8 x all 2^N absent/present patterns, and each pattern again with one erroring input at every position, with the MaybeUninit scratch arrays filled with 0x7F bytes by the rrtk_verif hook: results must equal the reference (sum/product of the present values, newest present time), so any use of an unwritten slot (value 3.39e38, time 0x7F7F...) and any out-of-range index (caught panic) is a violation; non-trivial = pattern with both present and absent inputs",
+        "sum over N=1..8 of 2^N x (1 + N) cases",
+    );
+    nary_patterns(&mut e1);
+    e1.notes.push(format!("poison hook active in this build: {}", hook));
+    let mut e2 = Eng::new(
+        "c16-terminal-read-scratch",
+        "terminal state/command/combined reads for all 16 own/partner presence combinations x weak timestamp orders x linked/unlinked with the 2-slot scratch array poisoned (engine shared with C09)",
+        "see c09-read-values",
+    );
+    crate::c09::values(&mut e2);
+    rekey(&mut e2, "scratch-slot");
+    let mut e3 = Eng::new(
+        "c16-axle-constructor",
+        "Axle::<N>::new() for N = 0..8 with the element array poisoned before the constructor's write loop: every terminal must be empty, unborrowed, writable, connectable and take part in update(); get_terminal with index N, N+1, N+7, usize::MAX/2, usize::MAX must panic",
+        "9 sizes x (1 + 5 out-of-range probes)",
+    );
+    axles(&mut e3);
+    if !hook {
+        for e in [&mut e1, &mut e3] {
+            e.caps.push("built without --cfg rrtk_verif: scratch arrays are not poisoned in this run".to_string());
+        }
+    }
+    vec![e1, e2, e3]
 }
